@@ -115,7 +115,7 @@ T(p) ==
       [] p.k = "if" -> Node("IFELSE", <<>>, 0, <<CreateScope(T(p.c)), CreateScope(T(p.a)), CreateScope(T(p.b))>>)
       [] p.k = "fmt" -> Node("FORMAT", <<>>, 0, TParts(p.parts, 1, <<>>))
       [] p.k = "block" -> N1("BLOCK", ParseSubx(p.ids, TP(p.a), TRUE))
-      [] p.k = "bapply" -> CreateCat("CAT", N1("BLOCK", ParseSubx(<<>>, TP(p.a), TRUE)), NStr("READ", "apply"))
+      [] p.k = "bapply" -> CreateCat("CAT", N1("BLOCK", ParseSubx(p.ids, TP(p.a), TRUE)), NStr("READ", "apply"))
       [] p.k = "letf" -> ParseLet(<<p.w>>, N1("BLOCK", ParseSubx(<<>>, TP(p.a), TRUE)))
 \* the lexer collects literal text and flushes it (flush_str) before every splice and at the end of the
 \* string, also when there is none: STR, splice, STR, ..., STR
